@@ -527,6 +527,78 @@ def run_scaled(case):
     return {'nt': code != 0, 'labels': [name, 'scale=%s' % scale]}
 
 
+# ------------------------------------------------------------------------------------------- scale='auto'
+
+AUTO_MAX = {'mxint': 1.984375, 'e2m1mxfp': 6.0, 'e2m3mxfp': 7.5, 'e3m2mxfp': 28.0, 'e4m3mxfp': 448.0, 'e5m2mxfp': 57344.0, 'p4binary': 224.0, 'p3binary': 49152.0, 'float16': 65504.0}
+
+
+@st.composite
+def auto_case(draw, tier):
+    name = draw(st.sampled_from(sorted(AUTO_MAX) + ['bfloat', 'uint8', 'float32', 'e8m0mxfp']))
+    k = draw(st.integers(0, 5))
+    if k == 0:
+        vals = [0.0] * draw(st.integers(0, 3))
+    else:
+        e = draw(st.sampled_from([-140, -130, -127, -126, -20, -3, -1, 0, 1, 2, 5, 9, 15, 16, 20, 100, 126, 127, 128, 130, 140]) | st.integers(-30, 30))
+        top = math.ldexp(draw(st.sampled_from([1.0, 1.0, 1.5, 1.75, 1.9999999, 1.0000001])), e)
+        vals = [top * draw(st.sampled_from([1.0, -1.0]))] + [top * draw(st.sampled_from([0.0, 0.5, -0.25, 0.1, 0.75, -0.99, 1.0, 0.3])) for _ in range(draw(st.integers(0, 5)))]
+        vals = draw(st.permutations(vals))
+    return {'fmt': name, 'vals': [v.hex() for v in vals], 'mode': draw(st.sampled_from(MODES)), 'init': draw(st.sampled_from(['list', 'tuple', 'list', 'list', 'int', 'bytes', 'bits']))}
+
+
+def run_auto(case):
+    """Array(Dtype(fmt, scale='auto'), values): the documented rule picks a power-of-two scale from the largest magnitude and the largest value of the
+    format; whatever scale it reports, the items must be the values divided by it, encoded, and read back multiplied by it"""
+    bs = bitstring_module()
+    name = case['fmt']
+    vals = [float.fromhex(v) for v in case['vals']]
+    bs.options.mxfp_overflow = case['mode']
+    d = attempt(lambda: bs.Dtype(name, scale='auto'))
+    require(not is_raised(d), "Dtype(fmt, scale='auto') raised", got=d, fmt=name)
+    init = {'list': vals, 'tuple': tuple(vals), 'gen': (v for v in vals), 'array_f64': None, 'int': 3, 'bytes': b'\x01\x02', 'bits': bs.Bits('0x0102')}[case['init']]
+    if case['init'] == 'array_f64':
+        init = bs.Array('float64', vals)
+    a = attempt(bs.Array, d, init)
+    if case['init'] in ('int', 'bytes', 'bits'):
+        require(is_raised(a, TypeError, ValueError), "an 'auto' scale needs an iterable of values: anything else must be rejected", got=a)
+        return {'nt': False, 'labels': ['not-iterable']}
+    if name not in AUTO_MAX or not vals:
+        require(is_raised(a, ValueError), "scale='auto' is documented for the 8-bit-and-smaller float formats and float16 only, and needs at least one value", got=a, fmt=name, n=len(vals))
+        return {'nt': False, 'labels': ['unsupported' if vals else 'empty']}
+    require(not is_raised(a), "Array with scale='auto' raised", got=a, fmt=name, vals=vals[:4])
+    sc = a.dtype.scale
+    m = max(abs(v) for v in vals)
+    if m == 0:
+        require(sc == 1, 'all-zero data: the documented scale is 1', got=sc)
+    else:
+        k = math.floor(math.log2(m)) - math.floor(math.log2(AUTO_MAX[name]))
+        k = max(-127, min(127, k))
+        require(sc == 2.0 ** k, 'auto scale is not 2**(floor(log2(max|x|)) - floor(log2(largest value of the format))) clamped to the e8m0 range', got=sc, expected=2.0 ** k, fmt=name, max=m)
+    # the items are the values encoded under that scale, and they read back multiplied by it
+    if name in FORMATS:
+        f = FORMATS[name]
+        enc, dec = (lambda v: f.encode(v, case['mode'])), f.decode_float
+    elif name == 'mxint':
+        enc, dec = mxint_encode, mxint_decode
+    else:
+        dec = half_of
+
+        def enc(v):
+            try:
+                return int.from_bytes(struct.pack('>e', v), 'big')
+            except (OverflowError, struct.error):
+                return int.from_bytes(struct.pack('>e', math.copysign(math.inf, v)), 'big')
+    nb = a.dtype.bitlength
+    codes = [a.data[i * nb:(i + 1) * nb].uint for i in range(len(vals))]
+    exp = [enc(v / sc) for v in vals]
+    require(codes == exp and len(a) == len(vals), 'items of an auto-scaled Array are not the codes of value / scale', got=[hex(c) for c in codes[:6]], expected=[hex(c) if isinstance(c, int) else c for c in exp[:6]],
+            scale=sc, fmt=name)
+    back = a.tolist()
+    for c, b in zip(codes, back):
+        require(same_float(float(b), float(dec(c) * sc)), 'items of an auto-scaled Array do not read back as decoded value * scale', got=b, expected=dec(c) * sc)
+    return {'nt': m != 0, 'labels': [name, 'k=%d' % (0 if m == 0 else max(-127, min(127, math.floor(math.log2(m)) - math.floor(math.log2(AUTO_MAX[name])))) // 32 * 32)]}
+
+
 SUBCHECKS = [
     Sub('C11.decode_all_codes', run_decode, enum=enum_decode,
         enum_exhaustive_note='every code of p3binary, p4binary, e5m2mxfp, e4m3mxfp (256), e3m2mxfp, e2m3mxfp (64), e2m1mxfp (16), e8m0mxfp, mxint (256) incl. the re-encode identity '
@@ -536,4 +608,5 @@ SUBCHECKS = [
     Sub('C11.encode_float64_path', run_f64, strategy=f64_case, examples={'quick': 10000, 'thorough': 200000}, ambient=('bytealigned', 'lsb0')),
     Sub('C11.e8m0_mxint_bfloat', run_other, strategy=other_case, examples={'quick': 8000, 'thorough': 100000}, ambient=('bytealigned', 'lsb0')),
     Sub('C11.scaled', run_scaled, strategy=scaled_case, examples={'quick': 6000, 'thorough': 80000}, ambient=('bytealigned',)),
+    Sub('C11.auto_scale', run_auto, strategy=auto_case, examples={'quick': 4000, 'thorough': 50000}, ambient=('bytealigned',)),
 ]
